@@ -55,3 +55,11 @@ Proof. canon_rec. Qed.
 
 Lemma mls_message_canonical : canonicalP T_MlsMessage.
 Proof. canon_rec. Qed.
+
+(* the stored snapshot: every field survives a write / read *)
+Lemma snapshot_wf : wf T_Snapshot.
+Proof. unfold wf. wf_rec. Qed.
+
+Lemma snapshot_roundtrip v bs rest :
+  vwf T_Snapshot v = true -> encode T_Snapshot v = Some bs -> decode T_Snapshot None (bs ++ rest) = DOk (v, rest).
+Proof. apply roundtrip. exact snapshot_wf. Qed.
